@@ -10,7 +10,7 @@ Definition produced (ths : list thread) (c k : nat) (v : Z) : Prop :=
 
 Definition thread_ok (es : list entry) (ths : list thread) (th : thread) : Prop :=
   match tpc th with
-  | PStart => True
+  | PStart _ => True
   | PWait e | PLoad e => exists en, nth_error es e = Some en /\ ecache en = tcache th /\ ekey en = tkey th
   | PAdd _ _ v => exists s, tout th = OVal v s
   | PDone (RVal v) => produced ths (tcache th) (tkey th) v
@@ -43,7 +43,7 @@ Definition ents_le (es es' : list entry) : Prop :=
 Lemma thread_ok_mono es es' ths ths' th :
   ents_le es es' -> ths_le ths ths' -> thread_ok es ths th -> thread_ok es' ths' th.
 Proof.
-  intros He Ht. unfold thread_ok. destruct (tpc th) as [| e | e | g s v | [v| |]]; auto.
+  intros He Ht. unfold thread_ok. destruct (tpc th) as [rt | e | e | g s v | [v| |]]; auto.
   - intros (en & E & A & B). destruct (He e en E) as (en' & E' & A' & B'). exists en'. repeat split; congruence.
   - intros (en & E & A & B). destruct (He e en E) as (en' & E' & A' & B'). exists en'. repeat split; congruence.
   - apply produced_mono; auto.
@@ -166,10 +166,10 @@ Proof.
   unfold step_thread. intros H I. pose proof I as [T E].
   destruct (nth_error (threads st) t) as [th|] eqn:Hth; [|discriminate].
   pose proof (T t th Hth) as Tt. unfold thread_ok in Tt.
-  destruct (tpc th) as [| i | i | g s v | r] eqn:Hpc; try discriminate.
+  destruct (tpc th) as [rt | i | i | g s v | r] eqn:Hpc; try discriminate.
   - (* PStart *)
     destruct (nth_error (caches st) (tcache th)) as [ca|] eqn:Hca; [|discriminate].
-    destruct (creleased ca); [discriminate|].
+    destruct (creleased ca); [discriminate|]. rewrite blind_retry_repaired in H.
     destruct (find_entry (tcache th) (tkey th) (entries st)) as [i|] eqn:Hf.
     + destruct (find_entry_some _ _ _ _ Hf) as (en & Hen & Hatt & Hc & Hk).
       rewrite Hen in H. destruct (move_gen i en (ccur ca) (entries st) (gens st)) as [es gs] eqn:Hm.
@@ -328,5 +328,5 @@ Theorem get_coherent lim mg es ls st :
 Proof.
   intros H t th Hth. pose proof (run_coh ls _ _ H (init_coh lim mg es)) as [T _].
   specialize (T t th Hth). unfold thread_ok in T. unfold returned_ok.
-  destruct (tpc th) as [| | | | [v| |]]; auto.
+  destruct (tpc th) as [rt| | | | [v| |]]; auto.
 Qed.
